@@ -101,16 +101,33 @@ Definition dtype_code (d : dtype) : Z :=
 Definition is_float_type (d : dtype) : bool := match d with FLOAT | FLOAT16 | BFLOAT16 | DOUBLE => true | _ => false end.
 Definition is_fp_type (d : dtype) : bool := match d with FLOAT | DOUBLE => true | _ => false end.
 
+(* The repair of C19:*:epsilon-or-scale-rank-exceeds-input-rank (proposed_fixes/ready/C19_06): _ir_utils.broadcast_keeps_rank
+   (value, reference): the rank of value is known and is <= 1 or <= the known rank of reference.  Ranks: None = unknown. *)
+Definition keeps_rank (v x : option nat) : bool :=
+  match v with
+  | None => false
+  | Some r => (r <=? 1)%nat || match x with Some rx => (r <=? rx)%nat | None => false end
+  end.
+(* rank of the NumPy broadcast of the pattern's result: x against epsilon and scale (and bias) *)
+Definition bc_rank (rx re rs : nat) : nat := Nat.max rx (Nat.max re rs).
+
 (* RmsNormFusion.check / rewrite (identical in both files).  eps_float_singleton: get_singleton_value(epsilon)
-   is a python float.  Result: None = no fusion; Some (axis, stash_type). *)
-Definition rms_check_rewrite (xdt sdt : dtype) (compute : option dtype) (eps_float_singleton : bool) : option (Z * Z) :=
+   is a python float.  [rank_guard] = false: as read at bbeff32 (the ranks of epsilon / scale are never looked at);
+   true: with the repair.  The harness probes which one each of the three rule files is.
+   Result: None = no fusion; Some (axis, stash_type). *)
+Definition rms_check_rewrite (rank_guard : bool) (xdt sdt : dtype) (compute : option dtype) (eps_float_singleton : bool)
+                             (rx re rs : option nat) : option (Z * Z) :=
   let stash := match compute with Some c => c | None => xdt end in
   if eps_float_singleton && is_float_type xdt && is_float_type sdt && is_fp_type stash
+     && (negb rank_guard || (keeps_rank re rx && keeps_rank rs rx))
   then Some ((-1)%Z, dtype_code stash) else None.
 
 (* LayerNormFusion.check / rewrite: x.dtype in {FLOAT, DOUBLE}; epsilon a singleton constant *)
-Definition ln_check_rewrite (xdt : dtype) (eps_singleton : bool) : option (Z * Z) :=
-  if is_fp_type xdt && eps_singleton then Some ((-1)%Z, dtype_code xdt) else None.
+Definition ln_check_rewrite (rank_guard : bool) (xdt : dtype) (eps_singleton : bool) (rx re rs : option nat) : option (Z * Z) :=
+  if is_fp_type xdt && eps_singleton && (negb rank_guard || (keeps_rank re rx && keeps_rank rs rx))
+  then Some ((-1)%Z, dtype_code xdt) else None.
+(* LayerNormBiasFusion: no check as read; the repair refuses a bias that would add dimensions *)
+Definition ln_bias_check (rank_guard : bool) (rx rb : option nat) : bool := negb rank_guard || keeps_rank rb rx.
 
 (* _fusion_utils.check_shape_bool: bind the symbolic names in order; a dim is an integer (static size) here,
    symbolic dims of the instance are encoded by the harness as distinct negative numbers. *)
@@ -140,6 +157,19 @@ Definition skip_check (has_bias is_ln : bool) (input skip gamma beta bias : opti
   let b5 := if has_bias then check_shape b4 bias [2]%nat else b4 in
   match b5 with Some _ => Z.eqb stash_type 1 | None => false end.
 
+(* what Skip(Simplified)LayerNormalization documents for its operands: input [B,S,D], skip of the same shape, gamma / beta /
+   bias 1-D of the hidden size D *)
+Definition zshape_eqb (a b : list Z) : bool :=
+  (fix go (a b : list Z) : bool := match a, b with [], [] => true | x :: a', y :: b' => Z.eqb x y && go a' b' | _, _ => false end) a b.
+Definition skip_op_ok (is_ln : bool) (input skip gamma : list Z) (beta bias : option (list Z)) : bool :=
+  match input with
+  | [_; _; d] =>
+      zshape_eqb skip input && zshape_eqb gamma [d]
+      && (if is_ln then match beta with Some b => zshape_eqb b [d] | None => false end else true)
+      && match bias with Some b => zshape_eqb b [d] | None => true end
+  | _ => false
+  end.
+
 (* correspondence cases *)
 Definition oz2_eqb (a b : option (Z * Z)) : bool :=
   match a, b with
@@ -148,13 +178,15 @@ Definition oz2_eqb (a b : option (Z * Z)) : bool :=
   | _, _ => false
   end.
 Inductive norm_case :=
-  | CRms (xdt sdt : dtype) (compute : option dtype) (eps_ok : bool) (observed : option (Z * Z))
-  | CLn (xdt : dtype) (eps_ok : bool) (observed : option (Z * Z))
+  | CRms (rank_guard : bool) (xdt sdt : dtype) (compute : option dtype) (eps_ok : bool) (rx re rs : option nat) (observed : option (Z * Z))
+  | CLn (rank_guard : bool) (xdt : dtype) (eps_ok : bool) (rx re rs : option nat) (observed : option (Z * Z))
+  | CLnBias (rank_guard : bool) (rx rb : option nat) (observed : bool)
   | CSkip (has_bias is_ln : bool) (input skip gamma beta bias : option (list Z)) (stash : Z) (observed : bool).
 Definition norm_agrees (c : norm_case) : bool :=
   match c with
-  | CRms x s cd e obs => oz2_eqb (rms_check_rewrite x s cd e) obs
-  | CLn x e obs => oz2_eqb (ln_check_rewrite x e) obs
+  | CRms g x s cd e rx re rs obs => oz2_eqb (rms_check_rewrite g x s cd e rx re rs) obs
+  | CLn g x e rx re rs obs => oz2_eqb (ln_check_rewrite g x e rx re rs) obs
+  | CLnBias g rx rb obs => Bool.eqb (ln_bias_check g rx rb) obs
   | CSkip hb ln i s g be bi st obs => Bool.eqb (skip_check hb ln i s g be bi st) obs
   end.
 Fixpoint disagreeing {A} (agrees : A -> bool) (i : nat) (cs : list A) : list nat :=
